@@ -218,7 +218,7 @@ pub fn execute(ctx: &mut Ctx, s: &Scenario) -> Outcome {
         out.mixin(digest(&obs_b));
         let (a_forgiven, trunc_terms, trunc_genes) = forgive_truncation(&obs_a, &obs_b);
         ctx.counters.add("probe.names_truncated", (trunc_terms.len() + trunc_genes.len()) as u64);
-        for dd in diff(&a_forgiven, &obs_b, IcCmp::Bits) {
+        for dd in crate::obs::diff_opts(&a_forgiven, &obs_b, IcCmp::Bits, true) {
             let cat_field = matches!(dd.field.as_str(), "categories" | "modifier" | "term.is_modifier" | "term.categories");
             let class = if cat_field && nondefault { format!("obs-differs:{}[source-categories-not-default]", dd.field) } else { format!("obs-differs:{}", class_of(&dd)) };
             out.violate(P, class, format!("{what}: {} [{}] original {} reloaded {}", dd.field, dd.key, crate::obs::clip(&dd.a), crate::obs::clip(&dd.b)));
@@ -241,7 +241,7 @@ pub fn execute(ctx: &mut Ctx, s: &Scenario) -> Outcome {
                             out.ontologies += 1;
                             ctx.counters.add("probe.second_generation_round_trips", 1);
                             let obs_c = observe(oc);
-                            for dd in diff(&obs_b, &obs_c, IcCmp::Bits) {
+                            for dd in crate::obs::diff_opts(&obs_b, &obs_c, IcCmp::Bits, true) {
                                 out.violate(P, format!("second-generation-differs:{}", class_of(&dd)), format!("as_bytes(from_bytes(as_bytes(A))): {} [{}] first reload {} second reload {}", dd.field, dd.key, crate::obs::clip(&dd.a), crate::obs::clip(&dd.b)));
                             }
                         }
